@@ -2,7 +2,8 @@
 # Instrumentation preserves semantics (DESIGN.md 7.2): the repository's whole pinned
 # suite is run against the instrumented tree in pass-through mode (no simulation active:
 # every verifsim call forwards to the real OS, Yield is a no-op).
-. /verif/scripts/env.sh
-cd /verif && ./scripts/build.sh || exit 2
-cd /repo && go1.26.8 test -overlay /verif/build/overlay.json -vet=off -count=1 -timeout 25m ./internal/... ./pkg/... ./cmd/... 2>&1 | grep -v "no test files"
+ROOT=$(cd "$(dirname "$0")/.." && pwd)
+. "$ROOT/scripts/env.sh"
+cd "$ROOT" && ./scripts/build.sh || exit 2
+cd /repo && go1.26.8 test -overlay $ROOT/build/overlay.json -vet=off -count=1 -timeout 25m ./internal/... ./pkg/... ./cmd/... 2>&1 | grep -v "no test files"
 exit ${PIPESTATUS[0]}
